@@ -472,7 +472,6 @@ def start_squid(L, extra=""):
 icp_port %(icp)d
 htcp_port %(htcp)d
 snmp_port %(snmp)d
-udp_incoming_address 127.0.0.1
 icp_access allow all
 htcp_access allow all
 htcp_clr_access allow all
@@ -626,8 +625,11 @@ def e2e_stage(res, L, tier, runner, n, seed_salt=39):
                                                       "log_tail": sq.log_tail(1500)}):
             found += 1
         return found
-    # reply / no-reply correspondence (suspects re-sent once, alone, with a longer wait)
-    sus = [k for k in range(len(items)) if model[k] not in ("blind", obs[k])]
+    # reply / no-reply correspondence (suspects re-sent once, alone, with a longer wait). Where the model says OOB the
+    # decoder over-reads and then refuses the message; a normally built squid cannot show the over-read (that is what the
+    # ASan-built unit harness is for), so nothing is compared there.
+    res.extra["e2e_model_oob"] = sum(1 for m in model if m == "OOB")
+    sus = [k for k in range(len(items)) if model[k] not in ("blind", "OOB", obs[k])]
     if sus:
         again = []
         for k in sus[:80]:
